@@ -549,3 +549,61 @@ for _pid, _fns in _T1.items():
     CLAIMED[_pid]["technique"] += (" + T1: %s regenerated from the Go source on every run with explicit fixed-width "
                                    "wraps and proved equal to the model's functions (GenBridge.v), so a source edit "
                                    "breaks the proof stage" % _fns)
+
+
+# Additions from the round-3 strengthening and deepening packages (appended so that the base entries above stay
+# readable; (field, text) pairs are appended with a leading space)
+_ADD = {
+    "C06": [("text", "Third stage (breachwatch): the chain watcher, which owns its own OpenChannel instance loaded from the "
+                     "database earlier than the revocations it is asked about, must reproduce every received secret (breach "
+                     "recognised, retribution matching the published commitment)."),
+            ("technique", "+ chain-watcher (second instance) differential stage")],
+    "C07": [("text", "The switch stage also runs the stop-point core and a stratified sample of the C08 single-fault "
+                     "enumeration (node-restart-then-link-flap family always included), with the clause: at most one "
+                     "settle-or-fail is delivered back to the incoming channel (lnd never logs 'unable to settle/cancel "
+                     "incoming HTLC')."),
+            ("technique", "+ single-fault stop-point enumeration sample on the real three-hop network")],
+    "C08": [("text", "A stop-point enumeration stage runs 6 base scenarios x every hook hit of the forwarder's links "
+                     "(message lost before its handler, and points inside handlers: decode, commit, forward, signed, sent) x "
+                     "{flap, node restart, restart-then-flap}, and every committed kvdb transaction of the forwarder x node "
+                     "restart (stop-the-world backend; predicates only). Thorough runs all ~600 points, quick a fixed core "
+                     "plus a seeded stratified sample. Findings C08-F1 (f141912), C08-F2 (c1f1bbb) and C08-F3 (78861d6: "
+                     "commitment signature owed after a delivered revocation never sent after reconnect) were found by this "
+                     "check and repaired in /repo."),
+            ("technique", "+ exhaustive single-fault stop-point enumeration (link quit at every hook hit, stop-the-world "
+                          "database backend after every committed transaction) with closing restarts")],
+    "C11": [("text", "Also with several sessions alive in one process and their write / flush / release / read calls "
+                     "interleaved arbitrarily, each session's stream is exactly its own (C11_sessions_independent; every "
+                     "session of a multi-session case is replayed by its own model instance, all 924 merges of two scripted "
+                     "sessions per pair kind, seeded interleavings, concurrent actors, -race in thorough)."),
+            ("note", "The process-wide buffer pools are not modelled: pool-freedom of the real code is tested by the "
+                     "multi-session correspondence and the retained-read aliasing predicate, not proved."),
+            ("technique", "+ exhaustive merges of two scripted sessions + seeded/concurrent actors, each session replayed "
+                          "by its own model instance")],
+    "C15": [("text", "For AMP invoices: a set is settled only when complete (per-set total >= value, per-HTLC "
+                     "address/CLTV/total checks, reconstruction matching every member's hash); AmtPaid and AMPState[set] "
+                     "(State, AmtPaid, InvoiceKeys) equal the projection of the HTLC map after every update (SQL store, all "
+                     "histories: C15_amp_accounting); the decision for a set depends only on that set's HTLCs and the "
+                     "invoice terms (C15_amp_sets_independent)."),
+            ("note", "AMP: C15_amp_settle_only_complete / _fresh_settle_needs_complete are function-level (any state); "
+                     "C15_amp_atomic holds under the stated secrecy hypothesis R_atomic, C15_amp_hash_checks_agree under "
+                     "child.Hash = H(child.Preimage) (checked on every oracle point); the frame half of set independence is "
+                     "by predicate + differential run only; set-id level 'settled once / not after canceled' and 'AmtPaid = "
+                     "settled sets only' are REFUTED by design (witness theorems, reproduced on the real registry); the KV "
+                     "store is excluded from the accounting clause by known finding C15-F2."),
+            ("technique", "+ AMP: inductive accounting invariant + function-level decision theorems + real "
+                          "amp.SeedSharer/ReconstructChildren in the harness + independent re-derivation of AMP children "
+                          "in the trace predicate")],
+    "C18": [("text", "Also across the sweeper's retries: a retried / re-clustered sweep starts at >= the relay floor "
+                     "(C18_retry_start_floor) and, absent a no-tx failure, never below the rate already offered "
+                     "(C18_retry_monotone; the exception is the known finding C18-F2 with its Coq witness "
+                     "C18_retry_monotone_refuted). Tied by composed histories of the real UtxoSweeper + BudgetAggregator + "
+                     "TxPublisher + LinearFeeFunction (128 enumerated failed-first-attempt x retry shapes x 4 backends, plus "
+                     "sampled), every BumpRequest model-checked (CPub), starting-rate bookkeeping compared (CSw)."),
+            ("note", "UpdateParams/BumpFee RPC, confirmations and third-party spends, the mempool RBF-info path and the "
+                     "AuxSweeper are not driven."),
+            ("technique", "+ composed sweeper/aggregator/publisher histories with per-request model check")],
+}
+for _pid, _items in _ADD.items():
+    for _field, _txt in _items:
+        CLAIMED[_pid][_field] += " " + _txt
